@@ -16,6 +16,7 @@ taps = [
     (r"func \(sc \*StateContext\) InsertTrieNode\(key datastore\.Key, node util\.MPTSerializable\) \(datastore\.Key, error\) \{\n", '\tverifTap("insert", key, node)\n'),
     (r"func \(sc \*StateContext\) DeleteTrieNode\(key datastore\.Key\) \(datastore\.Key, error\) \{\n", '\tverifTap("delete", key, nil)\n'),
     (r"func \(sc \*StateContext\) AddTransfer\(t \*state\.Transfer\) error \{\n", '\tverifTap("add_transfer", "", t)\n'),
+    (r"func \(sc \*StateContext\) EmitError\(err error\) \{\n", '\tverifTap("emit_error", "", err)\n'),
     (r"func \(sc \*StateContext\) AddSignedTransfer\(st \*state\.SignedTransfer\) \{\n", '\tverifTap("add_signed_transfer", "", st)\n'),
 ]
 for pat, ins in taps:
